@@ -26,6 +26,7 @@ RULE = ('EVERY (length n, chunk size, overlap < chunk) with n <= N, chunk <= 16 
         'cache on/off x 3 repetitions (also with more decoder threads than CPUs); flat readers whose 600 s chunk is not a whole number of samples (7.4, 2.3, 12.49, x.5 ...: chunk length = rounded value) over recordings of many chunks, and whose parts share one base name in different folders. non-trivial = distinct triples with n mod (chunk-overlap) != 0 '
         'or n < chunk or odd overlap; excerpt triples with n < k*size or (n-size) mod (k-1) != 0; file '
         'lists containing a file shorter than the chunk; compressed layouts with >= 2 batches.')
+RULE += ' Round 6: part files ending in an incomplete row; a .cbin recompressed under the same name and reopened by its path; for chunk lengths of exactly x.5 samples either rounding is accepted.'
 EXHAUSTIVE = {'quick': True, 'thorough': True}
 EXHAUSTIVE_SCOPE = {'quick': 'n <= 25 (see rule)', 'thorough': 'n <= 40 (see rule)'}
 FLOORS = {'quick': {'evaluations': 20000, 'distinct_nontrivial': 2000,
